@@ -149,7 +149,7 @@ class Builder:
         if len(self.stack) > 24:
             raise Anchor("expansion too deep at %s" % fname)
         self.stack.append((fname, sink))
-        t, S = self.linker.body(fname, sink)
+        t, S = self.linker.body(fname, sink, keep_sets=True)
         S = stmt.sepify(sepchain(S), strict=True)
         saved = (self.fixed, self.bind, self.assigned, self.excl, self.cvar, self.clos, self.pending)
         self.clos = dict(clos or {})
@@ -364,13 +364,17 @@ class Builder:
                     if not isinstance(text, str):
                         a.add(cur, "<raw>", nxt, {"fn": fname, "buf": "?"})
                     else:
-                        toks = []
-                        for part in re.split(r"(<[A-Za-z_][A-Za-z_0-9:]*>)", text):
+                        parts = [p_ for p_ in re.split(r"(<[A-Za-z_][A-Za-z_0-9:]*>)", text) if p_ != ""]
+                        c2 = cur
+                        for pi_, part in enumerate(parts):
+                            n2 = nxt if pi_ == len(parts) - 1 else a.state()
                             if re.fullmatch(r"<[A-Za-z_][A-Za-z_0-9:]*>", part):
-                                toks.append("<raw>")
+                                a.add(c2, "<raw>", n2, {"fn": fname, "lit": text})
                             else:
-                                toks += lex(part)
-                        self.tokens(toks, cur, nxt, {"fn": fname, "lit": text})
+                                self.lit(part, c2, n2, {"fn": fname, "lit": text})
+                            c2 = n2
+                        if not parts:
+                            a.add_eps(cur, nxt)
                 cur = nxt
             if old_cv is None:
                 self.cvar.pop(elem, None)
@@ -778,18 +782,21 @@ class Builder:
             a.add_eps(m3, m1)
         elif k == "lit":
             self.last_lit = " ".join(S[1].split())
-            toks = lex(S[1])
-            self.tokens(toks, s, e, {"fn": fname, "lit": S[1]})
+            self.lit(S[1], s, e, {"fn": fname, "lit": S[1]})
         elif k == "hole":
             what = ((S[2] or {}).get("what") or "")
             if what.startswith("local ") and what[6:] in self.bind and not self.bind[what[6:]].startswith("#"):
-                self.tokens(lex(self.bind[what[6:]]), s, e, {"fn": fname, "lit": self.bind[what[6:]], "sp": S[3]})
+                self.lit(self.bind[what[6:]], s, e, {"fn": fname, "lit": self.bind[what[6:]], "sp": S[3]})
+                return
+            if what.startswith("local ") and S[1] == "STR" and what[6:] in self.assigned and self.tracked_local(fname, what[6:]):
+                # a mutable local that only ever holds string literals: its value is tracked along the path (automata.included)
+                a.add(s, "<var>", e, {"fn": fname, "var": (fname, what[6:]), "sp": S[3], "values": self.local_literals(fname, what[6:])})
                 return
             if what.startswith("local ") and S[1] == "STR":
                 lits = self.local_literals(fname, what[6:])
                 if lits:
                     for w in lits:
-                        self.tokens(lex(w), s, e, {"fn": fname, "lit": w, "sp": S[3]})
+                        self.lit(w, s, e, {"fn": fname, "lit": w, "sp": S[3]})
                     return
             d = S[2] or {}
             nd = d.get("of") if isinstance(d.get("of"), dict) else d.get("node")
@@ -797,10 +804,15 @@ class Builder:
                 lits = self.expr_literals(nd, d.get("idx", -1) if d.get("idx") is not None else -1)
                 if lits:
                     for w in lits:
-                        self.tokens(lex(w), s, e, {"fn": fname, "lit": w, "sp": S[3]})
+                        self.lit(w, s, e, {"fn": fname, "lit": w, "sp": S[3]})
                     return
             sym = HOLE_SYMBOL.get(S[1], "<raw>")
-            a.add(s, sym, e, {"fn": fname, "hole": S[1], "what": (S[2] or {}).get("what"), "sp": S[3]})
+            hinfo = {"fn": fname, "hole": S[1], "what": (S[2] or {}).get("what"), "sp": S[3]}
+            if S[1] in ("VALUE_PARAM", "NUM", "FLOAT"):
+                hinfo["ga"] = True        # a placeholder / number ends in a digit: a word written right after it fuses with it
+                if S[1] in ("NUM", "FLOAT"):
+                    hinfo["gb"] = True
+            a.add(s, sym, e, hinfo)
         elif k == "callv":
             cal = S[1]
             if cal.endswith("value_to_string") or cal.endswith("value_to_string_common"):
@@ -810,7 +822,7 @@ class Builder:
             words = self.literal_results(target) if target else None
             if words:
                 for w in words:
-                    self.tokens(lex(w), s, e, {"fn": target, "lit": w})
+                    self.lit(w, s, e, {"fn": target, "lit": w})
             else:
                 a.add(s, "<raw>", e, {"fn": fname, "call": cal, "sp": S[3]})
         elif k == "call":
@@ -879,8 +891,33 @@ class Builder:
             a.add(s, "<raw>", e, {"fn": fname, "buf": S[1]})
         elif k == "reset":
             a.add_eps(s, e)
+        elif k == "set":
+            a.add(s, "<set>", e, {"fn": fname, "var": (fname, S[1]), "val": S[2]})
         else:
             raise Anchor("TIR node %s in grammar builder" % k)
+
+    def lit(self, text, s, e, info):
+        """tokens of a literal emission, with the glue attributes used to detect token fusion across emissions"""
+        a = self.a
+        if text and not text.strip():
+            a.add(s, "<sp>", e, dict(info, sp=info.get("sp")))
+            return
+        toks = lex(text)
+        if not toks:
+            a.add_eps(s, e)
+            return
+        cur = s
+        gb = bool(text) and (text[0].isalnum() or text[0] == "_")
+        ga = bool(text) and (text[-1].isalnum() or text[-1] == "_")
+        for i, tk in enumerate(toks):
+            nxt = e if i == len(toks) - 1 else a.state()
+            inf = dict(info)
+            if i == 0 and gb:
+                inf["gb"] = True
+            if i == len(toks) - 1 and ga:
+                inf["ga"] = True
+            a.add(cur, tk, nxt, inf)
+            cur = nxt
 
     def tokens(self, toks, s, e, info):
         a = self.a
@@ -892,6 +929,10 @@ class Builder:
             nxt = e if i == len(toks) - 1 else a.state()
             a.add(cur, tk, nxt, info)
             cur = nxt
+
+    def tracked_local(self, fname, name):
+        vals = self.local_literals(fname, name)
+        return bool(vals) and all(len(lex(v)) <= 1 for v in vals)
 
     def local_literals(self, fname, name):
         """string literals an immutable local can hold when it is bound by `let x = match/if {.. => "LIT"}` or by a tuple
